@@ -87,7 +87,7 @@ def string_alphabet(tier):
     return out
 
 
-PY_VALUES = [1.25e-05, 7.5e-06, 1.0, 2.0, 0, 1, -1, 2, 3, 16, 17, 100, 101, 127, 128, 129, 16384, 16385, 10 ** 16, 0.5, 1.5, -0.5, 3.0, 100.5, 1e16,
+PY_VALUES = [2 ** 1024, -(2 ** 1024), 10 ** 400, 1.25e-05, 7.5e-06, 1.0, 2.0, 0, 1, -1, 2, 3, 16, 17, 100, 101, 127, 128, 129, 16384, 16385, 10 ** 16, 0.5, 1.5, -0.5, 3.0, 100.5, 1e16,
              1e-05, -0.0, float('nan'), float('inf'), float('-inf'), True, False, 180, -180, 181, -181, 360, 99, 2.5e-7]
 PY_OBJECTS = [[], b'a', ('a',), {'a': 1}]
 
